@@ -27,6 +27,23 @@ def run(ck: Check):
             v = "Y" + "".join(rr.choice("YN") for _ in range(60))
             ex.one(strategy, {"limit": limit}, tcl, content(tcl), v, clock=clock, stream="limit-status",
                    model=strategy != "minimize-collapse-brace")
+    # the init() hook edits the testcase file (appends to it) before the first test: what is on disk is no longer what was
+    # loaded - a rejected original and check-only still never write the file
+    from explore import replay_doc as _rd
+    from runner import impl_run as _ir
+    for strategy in ("minimize", "minimize-around", "minimize-balanced", "check-only"):
+        for atom in ("line", "char"):
+            for v in ("N", "Y") if strategy == "check-only" else ("N",):
+                data = b"a\nb\nc\n"
+                run_ = _ir(strategy, {}, None, data, v, atom=atom, load=True, init_edits=b"# touched by init\n")
+                ck.count("init-edits-file")
+                ck.nontrivial(("init-edits-file", strategy, atom, v))
+                if run_.writes or run_.exc is not None or run_.tests != 1 or (run_.rc == 0) != (v == "Y") or run_.final != data + b"# touched by init\n":
+                    ctx = {"strategy": strategy, "cfg": {}, "tc": run_.loaded, "file0": data, "verdicts": v, "clock": [], "atom": atom,
+                           "exc_class": "TestRaised", "load": True, "init_hook_appends": "# touched by init"}
+                    ck.violation(f"{strategy}/{atom}: the init hook appended a line to the testcase file, the test answered {v}: "
+                                 f"{run_.writes} write(s) by lithium, {run_.tests} test(s), status {run_.rc}, exc={run_.exc}, file now "
+                                 f"{run_.final!r} (nothing may be written: expected 1 test and the file as the hook left it)", _rd(ctx, run_))
     # file names at the limits of the file system: an extension so long that 'original<ext>' / '<n>-boring<ext>' in the
     # temp dir has NAME_MAX-1, NAME_MAX, NAME_MAX+1 bytes (and ordinary lengths).  Whatever happens to the copies - they
     # fit, or the run stops with the OS error - a rejected original is never written to, and a run that works reports
